@@ -41,6 +41,12 @@ def runLines {σ : Type} (step : σ → Line → Step σ) (init : σ) (lines : A
       rep := { rep with tags := addTags rep.tags [ln.op] }
       i := i + 1
       continue
+    -- `op@variant`: the same operation under another type instantiation or placement of its arguments in memory
+    -- (`range@named`: a named int type, `wrap@named`: a named string type with a String method, …): the contract,
+    -- the model and the monitor are those of `op` — the harness translates arguments and answers
+    let ln := match ln.op.splitOn "@" with
+      | [base, _] => { ln with op := base }
+      | _ => ln
     let r := step st ln
     st := r.st
     match r.bad with
